@@ -38,6 +38,7 @@ Inductive event :=
 | ESnap (ts : list tsnap) (ks : list ksnap)
 | EMeta (topics : list (N * list N))                    (* contents of nsqd.dat *)
 | EView (tf cf : option N) (v : list lts)               (* /stats under filters / in text form, right after a snapshot *)
+| EFiles (owners : list (N * list N))                   (* disk-queue files in the data path: topic id, and per topic 0 = the topic's own queue, c = channel c *)
 | ERestart                                              (* graceful Exit, new daemon on the same data path *)
 | EHung.                                                (* the daemon (or a request to it) stopped answering: the case was abandoned here *)
 
@@ -155,6 +156,7 @@ Definition replay_step_h (hid : list N) (cf : config) (s : state) (pend : option
   | ESnap ts ks => if snap_agrees_h hid s ts ks then Some (s, pend) else None
   | EMeta m => if meta_agrees s m then Some (s, pend) else None
   | EView _ _ _ => Some (s, pend)
+  | EFiles _ => Some (s, pend)
   | EHung => Some (s, None)
   | ERestart => Some (restart s, pend)
   end.
@@ -538,6 +540,19 @@ Definition mon_view (g : ledger) (tf cf : option N) (v : list lts) : ledger :=
   | None => g
   end.
 
+(* C08: a deleted topic or channel leaves no disk-queue file behind, an ephemeral one never
+   has any: every file in the data path belongs to a durable topic / channel that exists *)
+Definition mon_files (g : ledger) (owners : list (N * list N)) : ledger :=
+  flag 8 (forallb (fun tc =>
+            match find_tl g (fst tc) with
+            | Some tl => negb (tl_eph tl) &&
+                         forallb (fun c => (c =? 0) || match find_cl g (fst tc) c with
+                                                       | Some cl => negb (l_eph cl)
+                                                       | None => false
+                                                       end) (snd tc)
+            | None => false
+            end) owners) g.
+
 Definition mon_snap (g : ledger) (ts : list tsnap) (ks : list ksnap) : ledger :=
   (* C13 per channel: received = depth + in-flight + deferred + finished + emptied
      (ephemeral channels may additionally have dropped on overflow) *)
@@ -720,6 +735,7 @@ Fixpoint mon_run (g : ledger) (prev : option event) (after_restart : bool) (evs 
           mon_run (mon_snap g ts ks) None false rest
       | EMeta m => mon_run (mon_meta g m) prev after_restart rest
       | EView tf cf v => mon_run (mon_view g tf cf v) prev after_restart rest
+      | EFiles owners => mon_run (mon_files g owners) prev after_restart rest
       | EHung =>
           (* a daemon that stops answering delivers nothing more (C01, C03), cannot be shut
              down gracefully (C05) and has deadlocked on whatever was in progress (C08) *)
